@@ -1,6 +1,7 @@
 // ---- fp_stubs.rs: TRUSTED stubs of the units float_to_prim_* on top of round_int_stubs.rs / round_float_repr.rs /
-// round_int_addsub_stubs.rs.  Every contract here is an ASSUMPTION (each read off the real function named at the stub).
-// Needs fp_spec.rs, `use core::ops::{Mul, ShlAssign}`, `use vstd::std_specs::ops::*` (round_prelude.rs).
+// round_int_addsub_stubs.rs.  Every contract here is an ASSUMPTION about the lower layer dashu-int / dashu-base (each read
+// off the real function named at the stub; C01 / C02 / C09 units are where those are established).
+// Needs fp_spec.rs, `use vstd::std_specs::ops::*` (round_prelude.rs).
 
 use core::ops::ShlAssign;
 
@@ -13,28 +14,93 @@ impl MulSpecImpl<IBig> for Sign {
     open spec fn mul_req(self, rhs: IBig) -> bool { true }
     open spec fn mul_spec(self, rhs: IBig) -> IBig { ibig_of(fp_sgn_apply(self, rhs.v())) }
 }
-// integer/src/shift_ops.rs `impl ShlAssign<usize> for IBig`: exact multiplication by 2^rhs (sign kept)
-impl ShlAssign<usize> for IBig {
+// integer/src/shift_ops.rs `impl ShlAssign<usize> for UBig`: exact multiplication by 2^rhs
+impl ShlAssign<usize> for UBig {
     #[verifier::external_body]
     fn shl_assign(&mut self, rhs: usize) { unimplemented!() }
 }
-impl ShlAssignSpecImpl<usize> for IBig {
+impl ShlAssignSpecImpl<usize> for UBig {
     open spec fn obeys_shl_assign_spec() -> bool { true }
     open spec fn shl_assign_req(&self, rhs: usize) -> bool { true }
-    open spec fn shl_assign_spec(&self, rhs: usize) -> &IBig { &ibig_of(self.v() * ipow(2, rhs as nat)) }
+    open spec fn shl_assign_spec(&self, rhs: usize) -> &UBig { &ubig_of(self.v() * ipow(2, rhs as nat)) }
+}
+// integer/src/mul_ops.rs `impl Mul<UBig> for UBig`, integer/src/add_ops.rs `impl Add<UBig> for UBig`: value-exact
+impl Mul<UBig> for UBig { type Output = UBig; #[verifier::external_body] fn mul(self, rhs: UBig) -> UBig { unimplemented!() } }
+impl MulSpecImpl<UBig> for UBig {
+    open spec fn obeys_mul_spec() -> bool { true }
+    open spec fn mul_req(self, rhs: UBig) -> bool { true }
+    open spec fn mul_spec(self, rhs: UBig) -> UBig { ubig_of(self.v() * rhs.v()) }
+}
+impl Add<UBig> for UBig { type Output = UBig; #[verifier::external_body] fn add(self, rhs: UBig) -> UBig { unimplemented!() } }
+impl AddSpecImpl<UBig> for UBig {
+    open spec fn obeys_add_spec() -> bool { true }
+    open spec fn add_req(self, rhs: UBig) -> bool { true }
+    open spec fn add_spec(self, rhs: UBig) -> UBig { ubig_of(self.v() + rhs.v()) }
+}
+// integer/src/convert.rs `impl From<u8> for UBig`: the same number
+impl From<u8> for UBig {
+    #[verifier::external_body]
+    fn from(x: u8) -> (r: UBig) ensures r.v() == x as int { unimplemented!() }
+}
+pub broadcast axiom fn fp_ubig_one() ensures #[trigger] UBig::ONE.v() == 1;
+impl UBig {
+    // integer/src/ubig.rs `UBig::ONE`
+    #[verifier::external_body]
+    pub const ONE: UBig = UBig { _p: 0 };
+    /// integer/src/ubig.rs `UBig::is_zero`
+    #[verifier::external_body]
+    pub fn is_zero(&self) -> (r: bool) ensures r == (self.v() == 0) { unimplemented!() }
+    /// integer/src/bits.rs `impl BitTest for UBig`: bit length (0 for zero, otherwise the k with 2^(k-1) <= v < 2^k)
+    #[verifier::external_body]
+    pub fn bit_len(&self) -> (r: usize) ensures r == blen(self.v()) { unimplemented!() }
 }
 
-// float/src/convert.rs `Context::convert_base` with NewB == 2 (called by `convert_to_binary_once` as
-// `Context::<Zero>::new(precision + 2).convert_base(repr)`).  ASSUMED: see fp_cb_pre / fp_cb_post / fp_cb_region in
-// fp_spec.rs.  Status of the assumption: for B a power of two it is the contract PROVED in unit float_convert_base
-// (exact re-basing, one repr_round, Exact results normalised; a Zero-mode repr_round truncates at the q-th digit);
-// for |exponent| <= 38 it is the composition of the contracts of repr_round / repr_div (quotient of q or q + 1 digits,
-// truncated at its own last digit) -- that composition itself is NOT verified (C08 lists this path as undecided);
-// the ln / exp path beyond the threshold is excluded by the precondition (KNOWN FINDING, see fp_cb_region).
+// dashu_base::DivRem (trait mirrored).  integer/src/div_ops.rs `impl DivRem<&UBig> for UBig`: Euclidean division of
+// naturals, `self == q * rhs + r`, `0 <= r < rhs`; division by zero panics (=> `requires` a non-zero divisor)
+pub trait DivRem<Rhs = Self> {
+    type OutputDiv;
+    type OutputRem;
+    spec fn div_rem_req(self, rhs: Rhs) -> bool;
+    fn div_rem(self, rhs: Rhs) -> (Self::OutputDiv, Self::OutputRem)
+        requires self.div_rem_req(rhs);
+}
+impl<'r> DivRem<&'r UBig> for UBig {
+    type OutputDiv = UBig;
+    type OutputRem = UBig;
+    open spec fn div_rem_req(self, rhs: &'r UBig) -> bool { rhs.v() != 0 }
+    #[verifier::external_body]
+    fn div_rem(self, rhs: &'r UBig) -> (ret: (UBig, UBig))
+        ensures self.v() == ret.0.v() * rhs.v() + ret.1.v(), 0 <= ret.1.v() < rhs.v(), ret.0.v() >= 0,
+    { unimplemented!() }
+}
+
+// dashu_base::EstimatedLog2 (trait mirrored), float/src/log.rs `impl EstimatedLog2 for Repr<B>`: f32 bounds of
+// log2 |significand * B^exponent| (directed rounding steps `next_up` / `next_down` around every float operation).
+// ASSUMED enclosure (fp_est_lo / fp_est_hi, lib/fp_spec.rs); f32 arithmetic is not modelled.
+pub trait EstimatedLog2 {
+    spec fn lb_ok(&self, f: f32) -> bool;
+    spec fn ub_ok(&self, f: f32) -> bool;
+    fn log2_bounds(&self) -> (r: (f32, f32)) ensures self.lb_ok(r.0), self.ub_ok(r.1);
+}
+impl<const B: Word> EstimatedLog2 for Repr<B> {
+    open spec fn lb_ok(&self, f: f32) -> bool {
+        fp_est_lo(f, iabs(fx_num(B as int, self.significand.v(), self.exponent as int)), fx_den(B as int, self.exponent as int))
+    }
+    open spec fn ub_ok(&self, f: f32) -> bool {
+        fp_est_hi(f, iabs(fx_num(B as int, self.significand.v(), self.exponent as int)), fx_den(B as int, self.exponent as int))
+    }
+    #[verifier::external_body]
+    fn log2_bounds(&self) -> (r: (f32, f32)) { unimplemented!() }
+}
+
+// float/src/convert.rs `Context::convert_base` with NewB == 2: NOT called by the unchanged functions under contract
+// (since the repair b344879 convert_to_binary_once divides the value out itself); present so that a changed to_f32 / to_f64
+// that calls it again (the state before the repair eabe4cf) is judged by a contract instead of being rejected.  ASSUMED, and
+// only what property C08 says of every base change: a finite result with at most `precision + 1` digits.
 impl<R: Round> Context<R> {
     #[verifier::external_body]
     pub fn convert_base<const B: Word, const NewB: Word>(&self, repr: Repr<B>) -> (ret: Rounded<Repr<NewB>>)
-        requires fp_cb_pre::<B, NewB>(self.precision, repr),
-        ensures fp_cb_post::<B, NewB>(R::md(), self.precision, repr, ret),
+        requires NewB == 2, fp_src_ok(repr), fp_finite(repr), self.precision > 0,
+        ensures fp_finite(rd_val0(ret)), ndigits(2, rd_val0(ret).significand.v()) <= self.precision + 1,
     { unimplemented!() }
 }
